@@ -112,7 +112,8 @@ def compare(ctx, key, got, want, what, case, rel=1e-9):
         if not (got != got or math.isinf(got)):
             ctx.violation("undefined-gives-number|" + key, "%s = %r although the definition is undefined" % (what, got), case)
         return
-    if not vutil.num_equal(got, want, rel, 1e-10):
+    # (absolute tolerance: a square root of a variance that is zero up to rounding amplifies 1e-17 to 1e-8)
+    if not vutil.num_equal(got, want, rel, 2e-7):
         ctx.violation("definition|" + key, "%s = %r, definition gives %r" % (what, got, want), case)
 
 
